@@ -274,6 +274,83 @@ func emitDataset(out *Out, r *Rng, hs HSpec) {
 	c.Prop = propOf(why)
 	setCurrent(nil, nil)
 	out.Emit(c)
+	if r.Chance(30) {
+		emitEditedDataset(out, r, hs, ds)
+	}
+}
+
+// the same dataset object processed again after an edit (a quad added that refers to a node nothing referred to before, or a
+// quad removed): what counts is the dataset as it is now - the result must be that of an equal, freshly built dataset
+func emitEditedDataset(out *Out, r *Rng, hs HSpec, ds *ld.RDFDataset) {
+	qs := ds.Graphs["@default"]
+	if len(qs) < 2 {
+		return
+	}
+	referenced := map[string]bool{}
+	for _, q := range qs {
+		if _, isL := q.Object.(*ld.Literal); !isL {
+			referenced[q.Object.GetValue()] = true
+		}
+	}
+	var target ld.Node
+	for _, q := range qs {
+		if !referenced[q.Subject.GetValue()] {
+			target = q.Subject
+		}
+	}
+	edit := "quad-removed"
+	if target != nil && r.Chance(70) {
+		// some other subject now refers to the so far unreferenced node
+		var from ld.Node
+		for _, q := range qs {
+			if q.Subject.GetValue() != target.GetValue() {
+				from = q.Subject
+			}
+		}
+		if from == nil {
+			from = ld.NewIRI("urn:new:top")
+		}
+		ds.Graphs["@default"] = append(qs, ld.NewQuad(from, ld.NewIRI("urn:p:added"), target, ""))
+		edit = "reference-added"
+	} else {
+		ds.Graphs["@default"] = qs[:len(qs)-1]
+	}
+	same, err1 := guard(3*time.Second, func() ([]merklize.RDFEntry, error) { return merklize.EntriesFromRDFWithHasher(ds, hs.H) })
+	// an equal dataset built afresh
+	fresh := ld.NewRDFDataset()
+	for g, gq := range ds.Graphs {
+		cp := make([]*ld.Quad, len(gq))
+		for i, q := range gq {
+			gname := ""
+			if q.Graph != nil {
+				gname = q.Graph.GetValue()
+			}
+			cp[i] = ld.NewQuad(q.Subject, q.Predicate, q.Object, gname)
+		}
+		fresh.Graphs[g] = cp
+	}
+	want, err2 := guard(3*time.Second, func() ([]merklize.RDFEntry, error) { return merklize.EntriesFromRDFWithHasher(fresh, hs.H) })
+	dsJ, canon := datasetJ(ds)
+	c := Case{Op: "rdf.entries", In: J{"h": hs.JSON, "ds": dsJ, "canon": canon}, Tags: []string{"dataset", "edited-in-place", "edit:" + edit}, NT: true}
+	var why []string
+	render := func(es []merklize.RDFEntry, err error) (any, string) {
+		if err != nil {
+			return errJ(err), "error"
+		}
+		ej := make([]any, len(es))
+		for i, e := range es {
+			ej[i] = entryJ(e)
+		}
+		return okJ(ej), fmt.Sprint(ej)
+	}
+	impl, sSame := render(same, err1)
+	_, sFresh := render(want, err2)
+	c.Impl = impl
+	if sSame != sFresh {
+		why = append(why, fmt.Sprintf("a dataset object edited after an earlier call (%s) is processed differently from an equal dataset built afresh: %s vs %s", edit, trunc(sSame, 300), trunc(sFresh, 300)))
+	}
+	c.Prop = propOf(why)
+	out.Emit(c)
 }
 
 // a subject (with at least one quad) that is the object of two distinct other quads of its own graph
